@@ -27,9 +27,15 @@ type chunkReader struct {
 	sizes   []int // chunk sizes, cycled; <=0 means "everything"
 	i       int
 	withEOF bool // return the last chunk together with io.EOF
+	zeros   bool // every second call returns (0, nil), which io.Reader permits and callers must not treat as EOF
+	calls   int
 }
 
 func (r *chunkReader) Read(p []byte) (int, error) {
+	r.calls++
+	if r.zeros && r.calls%2 == 1 && len(r.data) > 0 {
+		return 0, nil
+	}
 	if len(r.data) == 0 {
 		return 0, io.EOF
 	}
@@ -52,7 +58,7 @@ func (r *chunkReader) Read(p []byte) (int, error) {
 	return n, nil
 }
 
-var readerModes = []string{"whole", "onebyte", "halves", "chunks", "with-eof", "chunks-with-eof"}
+var readerModes = []string{"whole", "onebyte", "halves", "chunks", "with-eof", "chunks-with-eof", "chunks-with-empty-reads"}
 
 func mkReader(mode string, data []byte, sizes []int) io.Reader {
 	d := append([]byte{}, data...)
@@ -73,6 +79,8 @@ func mkReader(mode string, data []byte, sizes []int) io.Reader {
 		return &chunkReader{data: d, withEOF: true}
 	case "chunks-with-eof":
 		return &chunkReader{data: d, sizes: sizes, withEOF: true}
+	case "chunks-with-empty-reads":
+		return &chunkReader{data: d, sizes: sizes, zeros: true}
 	}
 	panic(mode)
 }
@@ -251,7 +259,7 @@ func TestC06Prop(t *testing.T) {
 				Mode:        rapid.SampledFrom(readerModes).Draw(t, "mode"),
 				Seed:        rapid.Uint32().Draw(t, "seed"),
 			}
-			if m.Mode == "chunks" || m.Mode == "chunks-with-eof" {
+			if m.Mode == "chunks" || m.Mode == "chunks-with-eof" || m.Mode == "chunks-with-empty-reads" {
 				m.Sizes = rapid.SliceOfN(rapid.OneOf(rapid.IntRange(1, 5), rapid.IntRange(1, 1500), rapid.SampledFrom([]int{1023, 1024, 1025, 512})), 1, 5).Draw(t, "sizes")
 			}
 			if m.Mode == "onebyte" && m.Len > 6000 {
@@ -361,6 +369,82 @@ func TestC06HighCounters(t *testing.T) {
 				stats.Fail("TestC06HighCounters", msg, start)
 				t.Errorf("%s", msg)
 			}
+		}
+	}
+}
+
+// TestC06Duplex: a session is used in both directions at the same time (requests are decrypted while
+// events are encrypted by other goroutines). Both streams must stay intact.
+func TestC06Duplex(t *testing.T) {
+	var secret [32]byte
+	for i := range secret {
+		secret[i] = byte(i*7 + 5)
+	}
+	reps := stats.EnvInt("VERIF_C06_REPS", 30)
+	k, _ := stats.Shard()
+	for rep := 0; rep < reps; rep++ {
+		server, _ := hccrypto.NewSecureSessionFromSharedKey(secret)
+		ka2c, kc2a := refctl.SessionKeys(secret[:])
+		sealer := &refctl.Sealer{Key: kc2a}
+		opener := &refctl.Opener{Key: ka2c}
+		n := 200
+		// incoming frames of many different lengths, prepared by the peer
+		var incoming [][]byte
+		var want [][]byte
+		for i := 0; i < n; i++ {
+			p := filler(1+(i*37+rep+k)%1024, uint32(i))
+			want = append(want, p)
+			incoming = append(incoming, sealer.SealFrame(p))
+		}
+		errs := make(chan error, 2)
+		go func() { // reader: decrypts the peer's frames one by one
+			for i, f := range incoming {
+				r, err := server.Decrypt(bytes.NewReader(f))
+				if err != nil {
+					errs <- fmt.Errorf("incoming frame %d (%d bytes) rejected while the session was sealing outgoing data: %v", i, len(want[i]), err)
+					return
+				}
+				got, _ := ioutil.ReadAll(r)
+				if !bytes.Equal(got, want[i]) {
+					errs <- fmt.Errorf("incoming frame %d decrypted wrongly while the session was sealing outgoing data", i)
+					return
+				}
+			}
+			errs <- nil
+		}()
+		var wire []byte
+		var sent []byte
+		go func() { // writer: seals outgoing payloads of other lengths
+			for i := 0; i < n; i++ {
+				p := filler(1+(i*53+7*rep)%1500, uint32(1000+i))
+				enc, err := server.Encrypt(bytes.NewReader(p))
+				if err != nil {
+					errs <- err
+					return
+				}
+				w, _ := ioutil.ReadAll(enc)
+				wire = append(wire, w...)
+				sent = append(sent, p...)
+			}
+			errs <- nil
+		}()
+		e1, e2 := <-errs, <-errs
+		err := e1
+		if err == nil {
+			err = e2
+		}
+		if err == nil {
+			plain, _, oerr := opener.OpenAll(wire)
+			if oerr != nil || !bytes.Equal(plain, sent) {
+				err = fmt.Errorf("outgoing stream sealed while the session was decrypting does not open at the peer: %v", oerr)
+			}
+		}
+		stats.Case(stats.Hash("duplex", k, rep), true, []string{"duplex"}, func() interface{} {
+			return map[string]interface{}{"mode": "decrypt and encrypt concurrently on one session", "frames_each_direction": n}
+		})
+		if err != nil {
+			stats.Fail("TestC06Duplex", err.Error(), rep)
+			t.Fatalf("repetition %d: %v", rep, err)
 		}
 	}
 }
